@@ -194,7 +194,7 @@ impl Check for C12 {
     fn rule() -> String {
         "Enumerated grid, reader direction: every width 0..=64 x range variants (2^w-1, 2^(w-1), 2^(w-1)+1; minimum 0, negative, i64::MIN, \
          i64::MAX-range, -1) x value sets (boundary, alternating bit patterns, pseudo random) for 9 (thorough 17) values so that every start phase \
-         within a byte occurs x every cut position of the byte stream into two data packets; files are encoded by e57ref's bit-by-bit codec and \
+         within a byte occurs x every cut position of the byte stream into two data packets (two cuts in three with the compressor-restart flag on some packets, which is legal and means nothing for bit packing); files are encoded by e57ref's bit-by-bit codec and \
          must decode through pointcloud_raw to the encoded values. Writer direction: prototypes 3 x f64 + integer records of every width (and a \
          companion width) with cap-1, cap, cap+1, 2cap+1 points, very wide prototypes (600 - 1000 enumerated, 300 - 1200 generated extension \
          records narrower than a byte, 5 - 9 packets), plus random programs (incl. compact prototypes over up to 8 packets): every written cloud is also decoded through skip(k).step_by(m) of the raw iterator; per record the written stream must have exactly \
@@ -280,7 +280,7 @@ impl Check for C12 {
                     v.nt("reader_direction_interesting_width_or_min");
                 }
                 let scene = read_case_scene(*min, *max, *scaled, vals);
-                let lay = Layout { clouds: vec![CloudLayout { packets: vec![Pk::Data(vec![*cut, *second_cut])], ..Default::default() }], ..Default::default() };
+                let lay = Layout { clouds: vec![CloudLayout { packets: vec![Pk::Data(vec![*cut, *second_cut])], restart_every: (*cut % 3) as u8, ..Default::default() }], ..Default::default() };
                 let enc = match encode(&scene, &lay) {
                     Ok(e) => e,
                     Err(e) => {
